@@ -92,6 +92,24 @@ def build(cid, spec):
         die("build of harness %s failed (the tree does not compile with the verification shims; "
             "an identifier a shim needs may have been renamed)" % harness)
     sys.stderr.write("[vcheck] built %s in %.1fs\n" % (harness, time.time() - t0))
+    if spec.get("race_pass"):
+        # the same harness bodies, UN-instrumented, with the race detector (free-running pass)
+        rep2 = base_overlay(harness, spec.get("shims", []))
+        add_dir(rep2, os.path.join(VERIF, "vsched"), os.path.join(REPO, "zzverif/vsched"))
+        add_dir(rep2, os.path.join(VERIF, "harness/vexplore"), os.path.join(REPO, "internal/zzverif/vexplore"))
+        ov2 = os.path.join(BUILD, "ov", "%s-race-%s.json" % (cid, tag))
+        with open(ov2, "w") as f:
+            json.dump({"Replace": rep2}, f, indent=0)
+        out2 = out + "-race"
+        t0 = time.time()
+        p = subprocess.run([GO, "build", "-race", "-tags", "verif", "-overlay", ov2, "-o", out2, "./internal/zzverif/" + harness],
+                           cwd=REPO, env=ENV, stdout=subprocess.PIPE, stderr=subprocess.STDOUT, text=True)
+        if p.returncode != 0:
+            print(p.stdout[-6000:])
+            die("race build of harness %s failed" % harness)
+        sys.stderr.write("[vcheck] built %s (-race) in %.1fs\n" % (harness, time.time() - t0))
+        os.environ["VERIF_RACE_BIN"] = out2
+        ENV["VERIF_RACE_BIN"] = out2
     return out, ov
 
 
